@@ -26,6 +26,27 @@ theorem discard_rejects_later_bad (st maxF : Nat) (cx : Ctx) (hbad : Header) (ju
   rw [Rd.discard]
   simp only [hd, hfr, Bool.not_true, Bool.false_eq_true, if_false, hrej]
 
+/-- … and the same for a later frame that announces more than MaxFrameSize: ErrFrameTooLarge, from its
+    header alone (whatever `junk` follows, however short). -/
+theorem discard_rejects_later_toolarge (skip : Bool) (st maxF : Nat) (cx : Ctx) (hbig : Header) (junk : Bytes)
+    (hw : hbig.WF) (hcheck : (if skip then none else checkHeader hbig st) = none) (hmax : maxF > 0) (hlen : hbig.len > maxF)
+    (fs : List WFrame) (ht : Tail true skip st maxF fs) (hopen : closed fs = false)
+    (r : Rd) (s : Src) (wire : Bytes)
+    (hc : Common skip st maxF r s) (hst : r.state = st) (hn : r.rawN = wire.length)
+    (hb : s.bytes = wire ++ (encodeFs fs ++ (rfcEncode hbig ++ junk))) :
+    (r.discard s cx none (fs.length + 3)).1 = some .tooLarge := by
+  refine C16.discard_open_tail_gen skip st maxF cx (rfcEncode hbig ++ junk) (some .tooLarge) s.fin ?_ fs ht hopen r s wire _ hc hst hn hb rfl (by omega)
+  intro r s wire n hc hst hn hb _
+  obtain ⟨s1, hd, hb1, ht1, _, _⟩ := drainRaw_ok s.fuel r s wire (rfcEncode hbig ++ junk) hb hn hc.tame (by unfold Src.fuel mu; omega)
+  have hfr : ({ r with rawN := 0 } : Rd).fragmented = true := by simp [Rd.fragmented, hst, hc.stF]
+  have hwf1 : Bytes.WF s1.bytes := by rw [hb1]; exact wf_append_right (hb ▸ hc.wf)
+  have hwt : Bytes.WF junk := by rw [hb1] at hwf1; exact wf_append_right hwf1
+  obtain ⟨s2, hrh, _, _, _⟩ := readHeader_ok hbig hw _ hwt s1 hb1 ht1
+  have hrej := toolarge_before_payload ({ r with rawN := 0 } : Rd) s1 s2 cx none hbig hrh
+    (by simpa [hc.skip, hst] using hcheck) (by simpa [hc.maxF] using hmax) (by simpa [hc.maxF] using hlen)
+  rw [Rd.discard]
+  simp only [hd, hfr, Bool.not_true, Bool.false_eq_true, if_false, hrej]
+
 /-- Non-vacuity with the frames of Props/C04: first fragment and a ping complete, then a NEW text frame
     (0x81: data frame while a message is open) — Discard reports the protocol error. -/
 example :
